@@ -54,10 +54,12 @@ def vector(req):
     sim.info.update({"config/names": ["Nickname String"], "config/defaults": ["Nickname Unnamed"],
                      "onions/current": "", "onions/detached": ""})
     adds, dels = [], []
+    warm = [0]          # ADD_ONION commands that belong to the warm-up service (req["reuse"])
 
     def add_onion(line):
         adds.append(line)
-        out = "250-ServiceID=%s\r\n250-PrivateKey=%s:%s\r\n" % (SID, REPLY_KEY[0], REPLY_KEY[1])
+        sid = SID if len(adds) > warm[0] else "warmupwarmupwar3"
+        out = "250-ServiceID=%s\r\n250-PrivateKey=%s:%s\r\n" % (sid, REPLY_KEY[0], REPLY_KEY[1])
         for tok in line.split()[1:]:
             if tok.startswith("ClientAuth=") and ":" not in tok:
                 out += "250-ClientAuth=%s:generatedblob\r\n" % tok.split("=", 1)[1]
@@ -100,6 +102,15 @@ def vector(req):
     try:
         if req["auth"]:
             auth = AuthBasic([(c["name"], c["token"]) if c["token"] else c["name"] for c in req["clients"]])
+            if req.get("reuse"):
+                # the application's auth object has already been used for another service, whose
+                # reply carried the cookies Tor generated for it; the request under test is unaffected
+                warm[0] = 1
+                w = EphemeralAuthenticatedOnionService.create(reactor, config, [8080], auth=auth, version=req["version"])
+                w.addErrback(lambda f: None)
+                sim.pump()
+                warm[0] = len(adds)
+                reactor.given[:] = []
             d = EphemeralAuthenticatedOnionService.create(reactor, config, ports, detach=req["detach"], private_key=pk,
                                                           version=req["version"], auth=auth, single_hop=req["single"])
         else:
@@ -123,6 +134,7 @@ def vector(req):
                 p["loc"] = "127.0.0.1:%d" % next(it)
             except StopIteration:
                 p["loc"] = "?"
+    adds = adds[warm[0]:]
     obs = dict(rejected=rejected, nadd=len(adds), key=["", ""], ports=[], flags=[], cauth=[], hostname="", stored=[],
                sid=SID, replykey=REPLY_KEY, **{"del": ""})
     if adds:
